@@ -15,6 +15,22 @@ CMDS = ['hold', 'release', 'hold', 'release', 'set_hold_point', 'release_hold_po
 MODES = ['REQUEST(CLEAN)', 'REQUEST(NOW)', 'REQUEST(NOW)', 'REQUEST(CLEAN)', 'REQUEST(NOW-NOW)']
 
 
+FLAKY = ('BrokenBarrierError', 'Address already in use', 'TimeoutError', 'database is locked')
+
+
+def run_retry(cases, workers):
+    """run_workers, re-running (twice at most) the cases in which the scheduler could not even start or stop its
+    server threads on the overloaded machine - an infrastructure hiccup, never a behaviour of the code under test."""
+    res = run_workers(cases, workers)
+    for _ in range(2):
+        again = [k for k, r in enumerate(res) if 'error' in r and any(f in r['error'] for f in FLAKY)]
+        if not again:
+            break
+        for k, r in zip(again, run_workers([cases[k] for k in again], workers)):
+            res[k] = r
+    return res
+
+
 def n_loops(raw):
     return sum(1 for op in raw.get('ops') or [] if op['op'] == 'loop')
 
@@ -33,8 +49,60 @@ def project_base(raw):
 class C19(SchedProp):
     id = 'C19'
     props_modules = ['CylcModel.Props.C19']
-    theorems: list = []
-    statement_note = ''
+    theorems = [
+        'CylcModel.C19.restart_same_instances',
+        'CylcModel.C19.restart_status',
+        'CylcModel.C19.restart_submit_num',
+        'CylcModel.C19.restart_flows',
+        'CylcModel.C19.restart_prereqs',
+        'CylcModel.C19.restart_tries',
+        'CylcModel.C19.restart_outputs',
+        'CylcModel.C19.restart_outputs_partial',
+        'CylcModel.C19.restart_outputs_counterexample',
+        'CylcModel.C19.restart_held',
+        'CylcModel.C19.restart_held_partial',
+        'CylcModel.C19.restart_held_counterexample',
+        'CylcModel.C19.restart_flags',
+        'CylcModel.C19.restart_hold_point',
+        'CylcModel.C19.restart_stop_task',
+        'CylcModel.C19.restart_abs_outputs',
+        'CylcModel.C19.restart_history',
+        'CylcModel.C19.restart_running',
+        'CylcModel.C19.restart_stop_point',
+        'CylcModel.C19.restart_tasks_to_hold',
+        'CylcModel.C19.restart_tasks_to_hold_kept',
+        'CylcModel.C19.restart_tasks_to_hold_partial',
+        'CylcModel.C19.spawn_after_restart',
+        'CylcModel.Sched2.restart_spec',
+        'CylcModel.Sched2.inv_run',
+        'CylcModel.Sched2.nodup_run',
+    ]
+    statement_note = (
+        'partial: proof over the frozen Sched2 model, for all instance graphs and all op lists (main loops, submit results, '
+        'job messages, hold / release / hold-point / stop in every mode / stop-point / stop-task / pause / resume commands '
+        'and earlier restarts). restore_persist is proved field by field for every state s of every run: restart g s has the '
+        'same pooled instances in the same order; status restored with preparing -> waiting; submit number restored with '
+        'preparing -> one less (and the concrete runs show the re-preparation under the same number); flow numbers, '
+        'prerequisite and suicide-prerequisite satisfaction, retry state restored; hold point, stop task, record of '
+        'completed absolute outputs and DB history restored (any state); stop point restored unless the scheduler shut '
+        'down on its own (it then forgets the stop point by design) - this one through an inductive invariant over all '
+        'primitives (Inv = duplicate-free pool + live stop point equals what a restart computes), under the decidable '
+        'graph hypothesis WFStop (start-up stop point = configured one; the driver checks it on every extracted graph); '
+        'queued/runahead flags normalised as documented. TWO ITEMS OF THE PROPERTY TEXT ARE FALSE ON THE CODE and are '
+        'kept as def ..._full : Prop with a kernel-checked counterexample and the exact implemented law proved instead: '
+        'completed outputs are reloaded only for running/failed/succeeded tasks (restart_outputs, _partial, '
+        '_counterexample; finding outputs-not-restored), and the hold point is re-applied after loading the pool so that '
+        'a task beyond it that had been released individually is held again and re-enters tasks_to_hold (restart_held, '
+        'restart_tasks_to_hold, _partial, _counterexample; finding hold-point-reapplied). continuation_equiv: stated as '
+        'def continuation_equiv_full : Prop over the model closed with a deterministic job environment (closed-loop '
+        'execution in SchedLemmasC19) and NOT proved (it needs a stuttering bisimulation up to the normalisation, and it '
+        'is false as stated for plans in which a retried job does not repeat an output of its first try, by the first '
+        'finding); what is proved towards it: the spawn-on-demand decision after a restart equals the one before '
+        '(spawn_after_restart), history / absolute outputs / holds are preserved, Inv is re-established by restart. The '
+        'second sentence of the property is decided on real runs by the differential judge. NOT IN THE FROZEN MODEL and '
+        'therefore neither proved nor predicted: broadcasts, the flow counter (single flow; the judge still compares the '
+        'real flow counter before/after), xtrigger satisfaction, and the six-table DB image itself (the model restarts '
+        'from the live state of the stopped scheduler).')
     technique = ('field-by-field theorems about the restart function of a Lean scheduler model + inductive invariant over op '
                  'lists + trace correspondence, a snapshot judge and a differential (interrupted vs uninterrupted) judge on '
                  'the real Scheduler')
@@ -50,7 +118,16 @@ class C19(SchedProp):
         'xtrigger satisfaction are not in the frozen model (single flow, no broadcasts / xtriggers generated; the flow '
         'counter is checked by the judge on the real traces only)',
     ]
-    rule = ''
+    rule = ('three families of generated runs of the real Scheduler (integer-cycling workflows, 2-6 tasks, 1-3 recurrences, '
+            'AND/OR triggers, offsets, optional/custom outputs, retries, runahead P0-P3): (1) command runs (complete and '
+            'failing/noisy job outcomes) with a command mix rich in stop / stop --now / stop --now --now, holds, hold points, '
+            'stop points, stop tasks, pause/resume and 1-3 restarts; (2) uninterrupted base runs whose job outcomes are a '
+            'function of (seed, point, name, submit number); (3) for each base run, variants stopped (both modes, '
+            '--now --now too) after the k-th main loop for k spread over the whole base run (thorough: 16 positions per '
+            'workflow, i.e. every iteration of runs up to 16 loops) and restarted, a third of them stopped and restarted '
+            'twice; every restart is judged item by item (snapshot before the stop vs after the restart) and every variant '
+            'against its base run (launched instances, final outputs); non-trivial = distinct (kind, ending, launch-count '
+            'class, statuses present at a stop, number of restarts) class per distinct case')
     kinds = ('cmd', 'cmdany')
     gen_opts = {'cmds': CMDS, 'p_cmd': 0.15, 'restarts': [1, 2, 3]}
     diff_opts = {'p_suicide': 0.0}
@@ -91,7 +168,7 @@ class C19(SchedProp):
             if c['id'] not in seen:
                 seen.add(c['id'])
                 first.append(c)
-        raw1 = {c['id']: r for c, r in zip(first, run_workers(first, self.workers))}
+        raw1 = {c['id']: r for c, r in zip(first, run_retry(first, self.workers))}
         second = []
         for inp in inputs:
             if 'base' not in inp:
@@ -102,14 +179,17 @@ class C19(SchedProp):
             v = {k: val for k, val in inp.items() if k != 'base'}
             if v.get('ops') is None:
                 d = inp['diff']
-                loops = max(1, n_loops(ra))
-                k1 = 1 + (d['slot'] * loops) // d['of']
-                stops = [[k1, d['modes'][0]]]
-                if d['twice']:
-                    stops.append([k1 + 2 + d['slot'] % 3, d['modes'][1]])
+                if d.get('stops'):
+                    stops = d['stops']          # a replay: the positions recorded by the original run
+                else:
+                    loops = max(1, n_loops(ra))
+                    k1 = 1 + (d['slot'] * loops) // d['of']
+                    stops = [[k1, d['modes'][0]]]
+                    if d['twice']:
+                        stops.append([k1 + 2 + d['slot'] % 3, d['modes'][1]])
                 v['policy'] = dict(v['policy'], stops=stops, restarts=len(stops))
             second.append(v)
-        raw2 = {v['id']: r for v, r in zip(second, run_workers(second, self.workers))}
+        raw2 = {v['id']: r for v, r in zip(second, run_retry(second, self.workers))}
         out = []
         for inp in inputs:
             if 'base' not in inp:
@@ -124,6 +204,7 @@ class C19(SchedProp):
                 ra = dict(ra, max_steps=inp['base']['policy'].get('max_steps'))
                 rb['base'] = project_base(ra)
                 rb['base_ops'] = ra['ops']
+                rb['stops'] = next((v['policy'].get('stops') for v in second if v['id'] == inp['id']), None)
                 rb['cut'] = len(rb['ops']) >= inp['policy']['max_steps'] and inp.get('ops') is None
             out.append(rb)
         return out
@@ -133,11 +214,18 @@ class C19(SchedProp):
         if 'base' in raw:
             d['base'] = raw['base']
             d['base_ops'] = raw['base_ops']
+            d['stops'] = raw.get('stops')
             d['cut'] = bool(raw.get('cut'))
         return d
 
     def _replay_input(self, inp, driver_inp):
         d = dict(inp)
+        if 'base' in inp and inp.get('ops') is None:
+            # a pair of runs is replayed by running both seeded adaptive schedules again, with the stops at the
+            # recorded positions: deterministic on the same tree, and a fair schedule on another tree (an op list
+            # recorded on one tree carries no job messages for what another tree launches)
+            d['diff'] = dict(inp['diff'], stops=driver_inp.get('stops'))
+            return d
         d['ops'] = driver_inp['ops']
         if 'base' in inp and 'base_ops' in driver_inp:
             d['base'] = dict(inp['base'], ops=driver_inp['base_ops'])
@@ -147,7 +235,17 @@ class C19(SchedProp):
         base = super().classify(inp, obs)
         if isinstance(obs, dict):
             return base
-        return base
+        # statuses present at the stops that were followed by a restart (observation k+1 follows op k: the
+        # number of restarts is the number of times an observation with a stop reason is followed by one without)
+        sts, n = set(), 0
+        for b, a in zip(obs, obs[1:]):
+            if b['stop'] is not None and a['stop'] is None:
+                n += 1
+                sts |= {t['st'] for t in b['pool']}
+        tags = [base, f'restarts={n}']
+        if sts:
+            tags.append('at-stop:' + ','.join(sorted(s[:5] for s in sts)))
+        return '/'.join(tags)
 
 
 PROP = C19()
